@@ -183,9 +183,15 @@ def gen_pull(rng):
     elif r < 0.4 and last != p1:
         # diamond: the consumer also reads the first pull-based component directly
         links.append({"src": p1, "out": 0, "dst": cons, "ads": []})
+    if r >= 0.55 and rng.random() < 0.35:
+        # a consumer that starts later than the data it reads, behind a delay that reaches back before its own start: the
+        # delay adapter clamps at the start of the *delivered* data, not at the consumer's
+        comps[cons]["steps"] = [steps[0]]
+        comps[cons]["start"] = rng.randint(3, 8)
+        links[-1]["ads"] = [["dfix", steps[0] + rng.randint(1, 4)]] + rng.choice([[], [["scale"]]])
     order = list(range(len(comps)))
     rng.shuffle(order)
-    return {"part": "pull", "comps": comps, "links": links, "order": order, "end": rng.randint(6, 24)}
+    return {"part": "pull", "comps": comps, "links": links, "order": order, "end": rng.randint(6, 24) + comps[cons]["start"]}
 
 
 def gen_pull_feedback(rng):
@@ -211,6 +217,27 @@ def oracle_pull(spec, impl):
     # every provider invocation happens for the time just requested from its output, and is followed by requests
     # to its sources for that same time (possibly shifted by adapters on those links: only direct links are judged)
     ev = impl["events"]
+    # what a time-stepped consumer asks of a pull-based output is its pull time shifted by the fixed delays on the link,
+    # clamped at the start of the data the output delivers (its metadata time), not at the consumer's own start
+    starts = [c["start"] for c in spec["comps"] if c["kind"] == "time"]
+    t0 = min(starts) if starts else 0
+    for k, (u, t_new, reqs) in enumerate(sc.split_updates(impl)):
+        mine = [l for l in spec["links"] if l["dst"] == u]
+        for l in mine:
+            if spec["comps"][l["src"]]["kind"] != "pull" or "via" in l or not all(a[0] in ("scale", "dfix") for a in l["ads"]):
+                continue
+            gi = out_index[(l["src"], l["out"])]
+            if sum(1 for x in spec["links"] if out_index[(x["src"], x["out"])] == gi) != 1:
+                continue     # (another reader of the same output — also another pull-based component — asks for its own times)
+            exp = t_new
+            for a in reversed(l["ads"]):
+                if a[0] == "dfix":
+                    exp = min(exp, t0) if exp - a[1] < t0 else exp - a[1]
+            got = {t for tag, t in reqs if tag == ("out", gi)}
+            if got and got != {exp}:
+                return ("a pull-based output is asked for the consumer's pull time shifted by the link's delay adapters "
+                        "(clamped at the start of the delivered data)",
+                        {"update_index": k, "consumer": u, "pull_time": t_new, "chain": l["ads"], "expected_request": exp, "requested": sorted(got)})
     for k, e in enumerate(ev):
         if e[0] != "cb":
             continue
@@ -444,9 +471,31 @@ def run(ctx, res):
         o = oracle_ws(c, impl)
         if o:
             res.fail(c, o[0], o[1])
+    run_wsgrid(ctx, res)
+
+
+def run_wsgrid(ctx, res):
+    """(4) WeightedSum on gridded fields with a grid of its own in another layout (engines/wsgrid.py)"""
+    from . import wsgrid
+    for _ in range(ctx.n(40, 600)):
+        c = wsgrid.gen(ctx.rng)
+        res.case(c, True)
+        res.count("part", "wsgrid")
+        res.count("wsgrid_own_grid", c["ws_layout"] is not None)
+        o = wsgrid.oracle(c, wsgrid.run(c))
+        if o:
+            res.fail(c, o[0], o[1])
 
 
 def search(ctx, res, divergences, broken):
+    from . import wsgrid
+    for _ in range(60):
+        c = wsgrid.gen(ctx.rng)
+        res.case(c, True)
+        f = wsgrid.oracle(c, wsgrid.run(c))
+        if f:
+            res.fail(c, f[0], f[1])
+            return
     for d in divergences:
         c = d.get("case") or {}
         f = judge(c)
@@ -474,6 +523,9 @@ def judge(c):
         return oracle_pull(c, impl)
     if part == "ws":
         return oracle_ws(c, run_ws(c))
+    if part == "wsgrid":
+        from . import wsgrid
+        return wsgrid.oracle(c, wsgrid.run(c))
     return None
 
 
